@@ -107,6 +107,19 @@ def extra_checks(tier, seed):
     for a, b, c in itertools.combinations(lits, 3):
         same(Literal[a, b, c], Union[Literal[a], Literal[b, c]], "literal-merge3")
         differ(Literal[a, b, c], Literal[a, b], "literal-member-removed3")
+    # literals holding None next to separately written literals (merge happens after unfolding)
+    for a, b in itertools.combinations(["a", 1, Col.R, b"a"], 2):
+        same(Union[Literal[a], Literal[None, b]], Optional[Literal[a, b]], "literal-none-merge")
+        same(Union[Literal[a], Literal[None, b]], Literal[a, b, None], "literal-none-merge")
+        same(Union[Literal[None, a], Literal[None, b]], Optional[Literal[a, b]], "literal-none-merge")
+        same(Union[Literal[a], Literal[None, b], int], Union[None, int, Literal[a, b]], "literal-none-merge")
+    # the spelling of nested arguments (typing alias vs builtin generic) never influences the normal form
+    spell = [(List[int], list[int]), (Dict[str, int], dict[str, int]), (Set[int], set[int])]
+    for (t_alias, t_builtin), (x, y) in itertools.product(spell, [(float, int), (str, bytes), (int, str)]):
+        same(Union[Tuple[t_alias, x], Tuple[t_builtin, y]], Union[Tuple[t_builtin, x], Tuple[t_alias, y]], "nested-alias-spelling")
+        same(Union[Tuple[t_alias, x], Tuple[t_builtin, y]], Union[tuple[t_builtin, y], tuple[t_builtin, x]], "nested-alias-spelling")
+        same(Union[Dict[str, t_alias], Dict[str, x]], Union[dict[str, x], dict[str, t_builtin]], "nested-alias-spelling")
+        same(List[Union[t_alias, x]], list[Union[x, t_builtin]], "nested-alias-spelling")
     same(Literal[None], None, "Literal[None]")
     same(Optional[int], Union[int, Literal[None]], "Literal[None] in union")
     # --- idempotence on everything seen
